@@ -536,7 +536,11 @@ _c03_quick = \
      _w("guards", "snap_hp", c=2), _w("guards", "snap_ebr", c=2),
      _w("queues", "ms_hp", variant="tsanv"), _w("queues", "ram_e1p1_ebr", variant="tsanv"), _w("queues", "nik_e1p1_hp", variant="tsanv"),
      _w("reclaim", "proto_hp", variant="tsanv", opt={"ops": 0x62}), _w("reclaim", "proto_ebr", variant="tsanv", opt={"ops": 0x62}), _w("reclaim", "proto_stamp", c=0, variant="tsanv", opt={"ops": 0x62}),
-     run("queues", "ms_hp", c=2, variant="tsanv"), run("reclaim", "proto_qsbr", c=1, variant="tsanv", opt={"ops": 0xee})]
+     run("queues", "ms_hp", c=2, variant="tsanv"), run("reclaim", "proto_qsbr", c=1, variant="tsanv", opt={"ops": 0xee})] + \
+    [run("queues", t, c=1, s=1, weight=0.5) for t in ["ms_hp", "nik_e1p1_ebr", "ram_e1p1_hp"]] + \
+    [run("bounded", "vyukov", c=1, s=1, opt={"cap": 2}, weight=0.5), run("bounded", "nikolaev", c=1, s=1, opt={"cap": 2}, weight=0.5),
+     run("hm", "set_hp", c=1, s=1, opt={"ops": 0x3, "prefill": 1}, weight=1), run("reclaim", "proto_lfrc", c=1, s=1, opt={"ops": 0x62}, weight=0.5),
+     run("reclaim", "proto_hp", c=1, s=1, opt={"ops": 0x162, "allow_update_only": 1}, weight=0.5), run("lr_seqlock", "seqlock_b16_s1", c=2, s=1, weight=0.3)]
 _c03_thorough = []
 for q in ["ms", "ram_e1p1", "ram_e2p0", "nik_e1p1", "nik_e2p0"]:
     for r in RECL_ALL:
@@ -567,16 +571,25 @@ _c03_thorough += [
     [_w("queues", "%s_%s" % (q, r), c=1, variant="tsanv", weight=1) for q in ["ms", "ram_e1p1", "nik_e1p1"] for r in ["hp", "he", "qsbr", "ebr", "nebr", "debra", "lfrc"]] + \
     [_w("reclaim", "proto_" + r, c=1, variant="tsanv", opt={"ops": 0x62}, weight=1) for r in RECL_ALL if r != "stamp"] + \
     [run("queues", "%s_%s" % (q, r), c=2, variant="tsanv", weight=3) for q in ["ms", "ram_e1p1", "nik_e1p1"] for r in ["hp", "ebr"]] + \
-    [run("reclaim", "proto_" + r, c=1, variant="tsanv", opt={"ops": 0xee}, weight=2) for r in RECL_ALL]
+    [run("reclaim", "proto_" + r, c=1, variant="tsanv", opt={"ops": 0xee}, weight=2) for r in RECL_ALL] + \
+    [run("queues", "%s_%s" % (q, r), c=2, s=1, weight=2) for q in ["ms", "ram_e1p1", "nik_e1p1"] for r in ["hp", "ebr", "lfrc"]] + \
+    [run("queues", "%s_%s" % (q, r), c=1, s=2, weight=1) for q in ["ms", "nik_e1p1"] for r in ["hp", "stamp"]] + \
+    [run("reclaim", "proto_" + r, c=1, s=1, opt={"ops": 0x162, "allow_update_only": 1}, weight=1) for r in RECL_ALL] + \
+    [run("bounded", "vyukov", c=2, s=1, opt={"cap": 2}, weight=2), run("bounded", "nikolaev", c=2, s=1, opt={"cap": 2}, weight=2), run("bounded", "nikolaev", c=1, s=2, opt={"cap": 1}, weight=1),
+     run("kfifo", "kf_hp", c=1, s=1, r=1, opt={"k": 2}, weight=1), run("kfifo", "kb", c=1, s=1, r=1, opt={"k": 2, "segs": 2}, weight=1),
+     run("hm", "set_hp", c=1, s=1, opt={"ops": 0x17}, weight=3), run("hm", "map_b1_lfrc", c=1, s=1, opt={"ops": 0x23}, weight=3), run("hm", "iset_hp", c=1, s=1, opt={"keys": 2}, weight=2),
+     run("hm", "set_stamp", c=1, s=1, opt={"ops": 0x3, "prefill": 1}, weight=2),
+     run("lr_seqlock", "seqlock_b16_s2", c=3, s=1, weight=1), run("deque", "grow2", c=2, s=1, weight=1), run("vy", "map_tt_i1_hp", c=1, s=1, opt={"keys": 2, "cap": 1, "ops": 0x7}, weight=2)]
 PLAN["C03"] = {
     "quick": _c03_quick, "thorough": _c03_thorough, "budget_s": {"quick": 170, "thorough": 1800},
     "rule": "part A (race freedom): the happens-before race detector (vector clocks fed only by the written memory orders, fences, mutexes, spawn/join) is armed in every execution "
             "of every check C01-C18; part B (weak executions): the harness families of C01, C04-C15 re-run in wmm mode - every atomic location keeps its modification order, a "
             "load may read any message not excluded by coherence / happens-before / seq_cst that was superseded at most W steps ago; reads-from choices are enumerated with at "
             "most d stale reads on top of <= c preemptions; precedence between operations of different threads is happens-before; production orders (prod build, explicit fences) "
-            "and the TSAN_MEMORY_ORDER variant (tsanv build); oracles are those of the owning property",
-    "assumptions": ["view-based release/acquire + fences + seq_cst model: a strict subset of RC11-consistent executions (no load buffering, no mid-order store insertion, no spurious weak CAS failure; "
-                    "seq_cst accesses and fences are totally ordered and act as visibility barriers, which is stronger than the standard requires)",
+            "and the TSAN_MEMORY_ORDER variant (tsanv build); part C (spurious failure): a compare_exchange_weak whose comparison succeeds may fail (choice point, at most s = 1..2 "
+            "per execution) in the queue, bounded-queue, Harris-Michael, reclaimer and seqlock families; oracles are those of the owning property",
+    "assumptions": ["view-based release/acquire + fences + seq_cst model: a strict subset of RC11-consistent executions (no load buffering, no mid-order store insertion; spurious weak CAS failures only in the part C runs; "
+                    "seq_cst fences are totally ordered visibility barriers, seq_cst accesses take part in a per-location total order)",
                     "an atomic access after an unordered plain *write* to the same location (constructor initialisation of a std::atomic member) is not reported as a race; the property speaks of plain objects"],
 }
 LEVEL_TEXT["C03"] = ("every execution of every check runs under the happens-before race detector; in addition all reads-from choices with <= d stale reads (d=1..2) inside the staleness window on "
